@@ -48,7 +48,7 @@ var (
 	setKeys   = []string{"s", "t"}
 	setVals   = []string{"x", "y", "z", ""}
 	zKeys     = []string{"p", "q", "r", "", "pp"}
-	zScores   = []float64{0, 1, 1, 2, 2.5, -1}
+	zScores   = []float64{0, 1, 1, 2, 2.5, -1, 16777216, 16777217, 0.1, 1700000001.5, -1e-7}
 	idxSmall  = []int{-8, -7, -6, -5, -4, -3, -2, -1, 0, 1, 2, 3, 4, 5, 6, 7}
 	idxHuge   = []int{math.MinInt64, math.MaxInt64, math.MinInt64 + 1, math.MaxInt32, math.MinInt32}
 	dsBuckets = map[string][]string{"kv": {"b", "ba"}, "list": {"b", "lb"}, "set": {"b", "sb"}, "zset": {"b", "zb"}}
